@@ -26,10 +26,11 @@ type opLine struct {
 	Op   string          `json:"op"`
 	T    json.RawMessage `json:"t"`
 	M    json.RawMessage `json:"m"`
-	R    string // rider of a "cb" op
+	R    string          // rider of a "cb" op
 	Hon  bool
 	Pool string // plan of a "blk" op
 	Via  string
+	Mh   string // ... height of the block relative to the effective height of the mark on the transaction the entry refers to
 }
 
 type caseOut struct {
@@ -49,6 +50,7 @@ type blkOut struct {
 	M       json.RawMessage `json:"m"`
 	Pool    string          `json:"pool"`
 	Via     string          `json:"via"`
+	Mh      string          `json:"mh"`
 	Applied bool            `json:"applied"` // the mutation changed the protobuf (true without mutation)
 	Same    bool            `json:"same"`
 	SameC   bool            `json:"samec"` // the entry is the pooled transaction (equal up to block id and reception time)
@@ -216,6 +218,38 @@ func families(t *aTx) []string {
 	return out
 }
 
+func refsMarked(t *aTx) bool {
+	if t.Ctr == "mread" {
+		return true
+	}
+	for _, in := range t.Ins {
+		if in.Mk {
+			return true
+		}
+	}
+	return false
+}
+
+// kindOfFailure names, for the statistics only, what is wrong with an entry that refers to a marked transaction.
+func kindOfFailure(t *aTx, m *absMut) string {
+	switch {
+	case m.Var != "none" && m.F == "Transaction.txid":
+		return "id-field-changed"
+	case m.Var != "none" && m.F == "SignatureInfo.Sign":
+		return "signature-bytes-changed"
+	case m.Var != "none":
+		return "field-changed:" + m.St
+	case t.Id == "stale":
+		return "stale-id"
+	}
+	for _, sg := range append(append([]aSig{}, t.Isigs...), t.Asigs...) {
+		if sg.By != sg.Pk || sg.Dg != "this" {
+			return "signature-" + sg.By + "-" + sg.Dg
+		}
+	}
+	return "signatures-valid"
+}
+
 // mutate applies the field mutation m to a copy of base; applied: the wire form differs from the base's.
 func mutate(base *pb.Transaction, m *absMut) (mtx *pb.Transaction, applied bool, err error) {
 	mtx = proto.Clone(base).(*pb.Transaction)
@@ -345,7 +379,11 @@ func casesCmd(args []string) error {
 				if err := json.Unmarshal(op.M, &m); err != nil {
 					return err
 				}
-				base, err := w.concretise(&t, fmt.Sprintf("%d-blk-%d-%d", w.sd, tr, i))
+				mh := op.Mh
+				if mh == "" {
+					mh = "above"
+				}
+				base, err := w.concretiseAt(&t, fmt.Sprintf("%d-blk-%d-%d", w.sd, tr, i), mh)
 				if err != nil {
 					return fmt.Errorf("behaviour %d op %d: concretise: %v", tr, i, err)
 				}
@@ -358,13 +396,17 @@ func casesCmd(args []string) error {
 						return err
 					}
 				}
-				o := blkOut{Tr: tr, I: i, Op: "blk", T: op.T, M: op.M, Pool: op.Pool, Via: op.Via, Applied: applied, Pooled: "-", Res: "-", Fl: []string{}}
+				o := blkOut{Tr: tr, I: i, Op: "blk", T: op.T, M: op.M, Pool: op.Pool, Via: op.Via, Mh: mh, Applied: applied, Pooled: "-", Res: "-", Fl: []string{}}
 				if applied {
 					var pooled *pb.Transaction
 					if op.Pool == "base" {
 						pooled = base
 					}
-					f, err := w.blockOp(entry, pooled, op.Via, st)
+					kmark := ""
+					if t.Ctr == "mread" {
+						kmark = mh
+					}
+					f, err := w.blockOp(entry, pooled, op.Via, kmark, st)
 					if err != nil {
 						return fmt.Errorf("behaviour %d op %d: block: %v", tr, i, err)
 					}
@@ -391,6 +433,18 @@ func casesCmd(args []string) error {
 					}
 					if f.Res == "rej" {
 						st.Why["blk: "+f.Stage+": "+whyClass(f.Why)]++
+					}
+					if refsMarked(&t) {
+						// the family "the entry refers to a marked transaction": facts for the vacuity thresholds
+						mk := fmt.Sprintf("mk/%s/%s/%s/%s", mh, op.Via, op.Pool, f.Ordinary)
+						st.BlkBy[mk]++
+						st.BlkBy[mk+":"+f.Res+":"+f.Flags]++
+						st.BlkBy[fmt.Sprintf("mkwhy/%s/%s", f.Ordinary, kindOfFailure(&t, &m))]++
+						ref := "token"
+						if t.Ctr == "mread" {
+							ref = "key"
+						}
+						st.BlkBy[fmt.Sprintf("mkref/%s/%s/%s/%s:%s", ref, mh, op.Via, f.Ordinary, f.Res)]++
 					}
 				} else {
 					st.MutsNA++
@@ -478,6 +532,9 @@ func loadOps(dir string) ([][]opLine, error) {
 				continue
 			}
 			o.Pool, o.Via = e.Str("pool"), e.Str("via")
+			if _, ok := e["mh"]; ok {
+				o.Mh = e.Str("mh")
+			}
 			o.T, _ = json.Marshal(e["t"])
 			if m, ok := e["m"]; ok {
 				o.M, _ = json.Marshal(m)
